@@ -264,3 +264,208 @@ def inline_helpers(fn, methods, max_stmts=8):
     _link(new)
     new._parent = getattr(fn, "_parent", None)
     return new
+
+
+def _gen_summary(h):
+    """A generator helper of the shape  [T = E]* ; for X in ITER: [T = E]* ; yield V   -> (params, prelude, X, ITER, inner, V) or None"""
+    body = [s for s in h.body if not (isinstance(s, ast.Expr) and isinstance(s.value, ast.Constant))]
+    if not body or not isinstance(body[-1], ast.For) or body[-1].orelse:
+        return None
+    if h.args.vararg or h.args.kwarg or h.args.kwonlyargs or h.args.defaults:
+        return None
+    pre = []
+    for s in body[:-1]:
+        if not (isinstance(s, ast.Assign) and len(s.targets) == 1 and isinstance(s.targets[0], ast.Name)):
+            return None
+        pre.append((s.targets[0].id, s.value))
+    loop = body[-1]
+    inner = []
+    lb = [s for s in loop.body if not (isinstance(s, ast.Expr) and isinstance(s.value, ast.Constant))]
+    if not lb or not (isinstance(lb[-1], ast.Expr) and isinstance(lb[-1].value, ast.Yield) and lb[-1].value.value is not None):
+        return None
+    for s in lb[:-1]:
+        if not (isinstance(s, ast.Assign) and len(s.targets) == 1 and isinstance(s.targets[0], ast.Name)):
+            return None
+        inner.append((s.targets[0].id, s.value))
+    if sum(1 for x in ast.walk(h) if isinstance(x, (ast.Yield, ast.YieldFrom))) != 1:
+        return None
+    return [a.arg for a in h.args.args], pre, loop.target, loop.iter, inner, lb[-1].value.value
+
+
+def inline_generators(stmts, helpers):
+    """Clone of the statement list in which `for T in h(args)` (comprehension generators and for statements), h a module-level
+    generator of the shape accepted by _gen_summary, iterates over h's own sequence instead: the generator's prelude and per-item
+    assignments are substituted, T's names are replaced by the components of the yielded value.  Nothing is done when a name of the
+    helper would capture a name of the caller, when T's shape and the yielded value's do not match, or when T is stored to."""
+    new = [clone(s) for s in stmts]
+    caller_names = set(n.id for s in new for n in ast.walk(s) if isinstance(n, ast.Name))
+
+    def subst(e, env):
+        class T(ast.NodeTransformer):
+            def visit_Name(self, n):
+                if isinstance(n.ctx, ast.Load) and n.id in env:
+                    return clone(env[n.id])
+                return n
+        return T().visit(clone(e))
+
+    def plan(call, target):
+        if not (isinstance(call, ast.Call) and isinstance(call.func, ast.Name) and call.func.id in helpers and not call.keywords
+                and not any(isinstance(a, ast.Starred) for a in call.args)):
+            return None
+        gs = _gen_summary(helpers[call.func.id])
+        if gs is None:
+            return None
+        params, pre, x, it, inner, v = gs
+        if len(params) != len(call.args):
+            return None
+        xnames = set(n.id for n in ast.walk(x) if isinstance(n, ast.Name))
+        if xnames & caller_names:
+            return None
+        env = dict(zip(params, call.args))
+        for name, val in pre:
+            env[name] = subst(val, env)
+        it2 = subst(it, env)
+        for name, val in inner:
+            env[name] = subst(val, env)
+        v2 = subst(v, env)
+        tmap = {}
+        if isinstance(target, ast.Name):
+            tmap[target.id] = v2
+        elif isinstance(target, (ast.Tuple, ast.List)) and isinstance(v2, (ast.Tuple, ast.List)) and len(target.elts) == len(v2.elts) and \
+                all(isinstance(e, ast.Name) for e in target.elts):
+            for e, w in zip(target.elts, v2.elts):
+                tmap[e.id] = w
+        else:
+            return None
+        return clone(x), it2, tmap
+
+    class G(ast.NodeTransformer):
+        def _comp(self, node):
+            self.generic_visit(node)
+            for i, g in enumerate(node.generators):
+                p = plan(g.iter, g.target)
+                if p is None:
+                    continue
+                x, it2, tmap = p
+                g.target, g.iter = x, it2
+                g.ifs = [subst(c, tmap) for c in g.ifs]
+                for g2 in node.generators[i + 1:]:
+                    g2.iter = subst(g2.iter, tmap)
+                    g2.ifs = [subst(c, tmap) for c in g2.ifs]
+                if isinstance(node, ast.DictComp):
+                    node.key, node.value = subst(node.key, tmap), subst(node.value, tmap)
+                else:
+                    node.elt = subst(node.elt, tmap)
+            return node
+        visit_ListComp = visit_SetComp = visit_GeneratorExp = visit_DictComp = _comp
+
+        def visit_For(self, node):
+            self.generic_visit(node)
+            p = plan(node.iter, node.target)
+            if p is None:
+                return node
+            x, it2, tmap = p
+            if any(isinstance(n, ast.Name) and n.id in tmap and isinstance(n.ctx, (ast.Store, ast.Del)) for s in node.body for n in ast.walk(s)):
+                return node
+            node.target, node.iter = x, it2
+            node.body = [subst(s, tmap) for s in node.body]
+            return node
+    out = [G().visit(s) for s in new]
+    for s in out:
+        ast.fix_missing_locations(s)
+    return out
+
+
+def _forall_summary(h):
+    """A boolean loop helper:  [docstring] for T in IT: if C: return <b> ;  return <not b>    -> (params, T, IT, C, b) or None"""
+    body = [s for s in h.body if not (isinstance(s, ast.Expr) and isinstance(s.value, ast.Constant))]
+    if len(body) != 2 or not isinstance(body[0], ast.For) or body[0].orelse or not isinstance(body[1], ast.Return):
+        return None
+    if h.args.vararg or h.args.kwarg or h.args.kwonlyargs or h.args.defaults:
+        return None
+    loop, last = body
+    if len(loop.body) != 1 or not isinstance(loop.body[0], ast.If) or loop.body[0].orelse:
+        return None
+    inner = loop.body[0]
+    if len(inner.body) != 1 or not isinstance(inner.body[0], ast.Return):
+        return None
+    r_in, r_out = inner.body[0].value, last.value
+    if not (isinstance(r_in, ast.Constant) and isinstance(r_out, ast.Constant) and isinstance(r_in.value, bool) and isinstance(r_out.value, bool)
+            and r_in.value != r_out.value):
+        return None
+    return [a.arg for a in h.args.args], loop.target, loop.iter, inner.test, r_in.value
+
+
+def inline_forall_helpers(fn, helpers):
+    """Clone of `fn` in which `if H(args): ...` / `if not H(args): ...` / `if H(args) is False: ...`, H a module-level boolean loop helper
+    (for T in IT: if C: return b ; return not b), is replaced by the flag loop it abbreviates:
+          flag = not b ; for T in IT: if C: flag = b ; break        if flag: ...
+    Parameters are substituted by the call's arguments, the helper's loop names are suffixed (no capture)."""
+    new = clone(fn)
+    counter = [0]
+
+    def plan(test):
+        neg = False
+        call = test
+        if isinstance(test, ast.UnaryOp) and isinstance(test.op, ast.Not):
+            neg, call = True, test.operand
+        elif isinstance(test, ast.Compare) and len(test.ops) == 1 and isinstance(test.comparators[0], ast.Constant) and isinstance(test.comparators[0].value, bool) \
+                and isinstance(test.ops[0], (ast.Is, ast.Eq, ast.IsNot, ast.NotEq)):
+            call = test.left
+            neg = (test.comparators[0].value is False) == isinstance(test.ops[0], (ast.Is, ast.Eq))
+        if not (isinstance(call, ast.Call) and isinstance(call.func, ast.Name) and call.func.id in helpers and not call.keywords
+                and not any(isinstance(a, ast.Starred) for a in call.args)):
+            return None
+        fs = _forall_summary(helpers[call.func.id])
+        if fs is None or len(fs[0]) != len(call.args):
+            return None
+        return neg, call, fs
+
+    def expand(stmts):
+        out = []
+        for st in stmts:
+            for fld in ("body", "orelse", "finalbody"):
+                b = getattr(st, fld, None)
+                if isinstance(b, list) and b and isinstance(b[0], ast.stmt):
+                    setattr(st, fld, expand(b))
+            for hd in getattr(st, "handlers", []) or []:
+                hd.body = expand(hd.body)
+            p = plan(st.test) if isinstance(st, ast.If) else None
+            if p is not None:
+                neg, call, (params, tgt, it, cond, b) = p
+                counter[0] += 1
+                suf = "_q%d" % counter[0]
+                flag = "all_ok%s" % suf
+                sub = dict(zip(params, call.args))
+                hl = set(n.id for n in ast.walk(tgt) if isinstance(n, ast.Name))
+
+                class S(ast.NodeTransformer):
+                    def visit_Name(self, n):
+                        if n.id in hl:
+                            return ast.copy_location(ast.Name(id=n.id + suf, ctx=n.ctx), n)
+                        if n.id in sub and isinstance(n.ctx, ast.Load):
+                            return clone(sub[n.id])
+                        return n
+
+                def mk(node):
+                    return ast.copy_location(node, st)
+                set_flag = lambda v: mk(ast.Assign(targets=[mk(ast.Name(id=flag, ctx=ast.Store()))], value=mk(ast.Constant(value=v))))
+                inner = mk(ast.If(test=S().visit(clone(cond)), body=[set_flag(b), mk(ast.Break())], orelse=[]))
+                loop = mk(ast.For(target=S().visit(clone(tgt)), iter=S().visit(clone(it)), body=[inner], orelse=[]))
+                out.append(set_flag(not b))
+                out.append(loop)
+                ftest = mk(ast.Name(id=flag, ctx=ast.Load()))
+                st.test = mk(ast.UnaryOp(op=ast.Not(), operand=ftest)) if neg else ftest
+                for x in ast.walk(loop):
+                    if not hasattr(x, "lineno") and isinstance(x, (ast.expr, ast.stmt)):
+                        ast.copy_location(x, st)
+            out.append(st)
+        return out
+    new.body = expand(new.body)
+    ast.fix_missing_locations(new)
+    _link(new)
+    new._parent = getattr(fn, "_parent", None)
+    for a in ("_qualname", "_module", "_class"):
+        if hasattr(fn, a):
+            setattr(new, a, getattr(fn, a))
+    return new
